@@ -365,6 +365,9 @@ def cases(tier, seed):
     for part in range(4 if T else 2):
         add("glyphs", part=part, n=60 if T else 25)
     add("stored")
+    if T:
+        for sp in ['cu2qu', 'qu2cu', 'pens/cu2quPen_test.py', 'pens/qu2cuPen_test.py']:
+            add("suite", path=sp)
     return cs
 
 
@@ -615,3 +618,12 @@ def drv_stored(case, rnd, ctx):
     for k in range(0, len(curves) - 3, 3):
         _try(curves_to_quadratic, [[tuple(p) for p in c] for c in curves[k:k + 3]], [1.0, 0.5, 2.0], True)
     ctx.sample = {"stored_curves": len(curves)}
+
+
+def drv_suite(case, rnd, ctx):
+    """The repository's own tests as a workload for the monitors (outcomes not judged)."""
+    from vmon import suite
+    passed, failed, tail = suite.run_pytest([case["path"]], ctx)
+    ctx.sample = {"suite": case["path"], "tests_passed": passed, "tests_failed": failed}
+    if not passed:
+        ctx.inconclusive("suite workload ran no passing test: " + tail[-300:])
